@@ -235,9 +235,9 @@ def _work(job):
 
 def run(tier, seed):
     if tier == "quick":
-        nschemas, ntexts, upto, sample = 160, 3, 7, 48
+        nschemas, ntexts, upto, sample = 480, 3, 7, 48
     else:
-        nschemas, ntexts, upto, sample = 1200, 4, 9, 160
+        nschemas, ntexts, upto, sample = 3200, 4, 9, 160
     col = Collector()
     skipped = texts = 0
     jobs = [(seed, i, ntexts, upto, sample) for i in range(nschemas)]
